@@ -60,6 +60,8 @@ pub struct NodeObs {
     pub attached: bool,
     /// replacement value of an entity / character reference
     pub ref_value: Option<String>,
+    /// namespace prefix of an element as written (None if unprefixed)
+    pub prefix: Option<String>,
 }
 
 pub type ObsMap = BTreeMap<Key, NodeObs>;
@@ -75,6 +77,8 @@ pub struct Expect {
     pub children: Vec<Key>,
     /// (name, value, key), sorted by name
     pub attrs: Vec<(String, String, Key)>,
+    /// attributes that exist only through a DTD default: (name, value), sorted
+    pub defaults: Vec<(String, String)>,
     pub attached: bool,
     /// value not judged (model adopted it from the implementation)
     pub value_free: bool,
